@@ -235,11 +235,11 @@ theorem startsCommitted_run (cfg : Cfg) (evs : List Ev) :
   · obtain ⟨a, rfl⟩ := hsync
     simp only [expectedSig]
     split
-    · simp
+    · rename_i hj; simp [step, hj]
     · rename_i hj
       have hj' : s.jpc = .sync := by simpa using hj
       split
-      · simp
+      · rename_i hst; simp [step, hj, hst, snap]
       · rename_i hst
         have hst' : s.stopping = false := by simpa using hst
         obtain ⟨g, m⟩ := syncOk_post cfg s a hj' hst'
